@@ -117,11 +117,13 @@ func ScalePath64(path Path64, scale float64) Path64 {
 }
 
 func ScaleRectD(rec RectD, scale float64) Rect64 {
+	// quantise the corners exactly like path coordinates (same rounding, ties included)
+	corners := ScalePathDToPath64(PathD{{X: rec.left, Y: rec.top}, {X: rec.right, Y: rec.bottom}}, scale)
 	return Rect64{
-		left:   int64(math.Round(rec.left * scale)),
-		top:    int64(math.Round(rec.top * scale)),
-		right:  int64(math.Round(rec.right * scale)),
-		bottom: int64(math.Round(rec.bottom * scale)),
+		left:   corners[0].X,
+		top:    corners[0].Y,
+		right:  corners[1].X,
+		bottom: corners[1].Y,
 	}
 }
 
